@@ -122,6 +122,23 @@ Theorem C13_node_copy_pure : forall w sti src add_self ti, ti < length (trees w)
 Proof. exact node_copy_pure. Qed.
 Print Assumptions C13_node_copy_pure.
 
+(* add_child(node) / add(tree) / copy_to: every tree but the target - in particular a source
+   in another tree - keeps its state, whether the copy succeeds, is refused or fails *)
+Theorem C13_add_node_source_pure : forall w ti p sti src e k b deep tj, tj <> ti ->
+  get_tree (snd (op_add_node w ti p sti src e k b deep)) tj = get_tree w tj.
+Proof. exact add_node_other. Qed.
+Print Assumptions C13_add_node_source_pure.
+
+Theorem C13_add_tree_source_pure : forall w ti p sti b deep tj, tj <> ti ->
+  get_tree (snd (op_add_tree w ti p sti b deep)) tj = get_tree w tj.
+Proof. exact add_tree_source_pure. Qed.
+Print Assumptions C13_add_tree_source_pure.
+
+Theorem C13_copy_to_source_pure : forall w sti src ti target add_self b deep tj, tj <> ti ->
+  get_tree (snd (op_copy_to w sti src ti target add_self b deep)) tj = get_tree w tj.
+Proof. exact copy_to_source_pure. Qed.
+Print Assumptions C13_copy_to_source_pure.
+
 (* ================= non-vacuity ================= *)
 Definition c13_dd (z : Z) : dat := D z z z true [z].
 Definition c13_w : world :=
